@@ -370,7 +370,8 @@ class CircuitCompositeOperation(ICircuitCompositeOperation):
 
         for node in other._circuit_graph.get_node_iterator():
             if not node.operation.has_relation:
-                node.operation.relation_link = relation
+                # Identical but distinct link instance per operation, (nested) operations sharing a link instance compare equal by value
+                node.operation.relation_link = replace(relation)
             self.add(operation=node.operation)
         return self
 
